@@ -14,3 +14,4 @@ import BobModel.Props.C16
 import BobModel.Props.C19
 import BobModel.Props.C06
 import BobModel.Props.C07
+import BobModel.Props.C04
